@@ -344,6 +344,53 @@ func runRangeHistory(c *Ctx, hi int, gs, ge, lease string, clients [][]byte, scr
 			probeAll(nh, len(ops), "after the final restart")
 		}
 	}
+	// the operator edits the range and restarts on the same lease database: a stored binding outside
+	// the new range must never be served (the plugin refuses to start), bindings inside it survive
+	if !aborted && !crashMode && hi%3 == 0 {
+		alts := [][2]int64{{int64(start) + 1, int64(end)}, {int64(start), int64(end) - 1}, {int64(start) - 2, int64(end) + 2},
+			{int64(end) + 1, int64(end) + 9}, {int64(start) + 1, int64(end) + 1}, {int64(start), int64(end)}}
+		alt := alts[(hi/3)%len(alts)]
+		if alt[0] >= 1 && alt[1] <= 0xfffffffe && alt[0] < alt[1] {
+			ip4 := func(v int64) net.IP { return net.IP{byte(v >> 24), byte(v >> 16), byte(v >> 8), byte(v)} }
+			gs2, ge2 := ip4(alt[0]).String(), ip4(alt[1]).String()
+			rows, rerr := readLeases(dbPath)
+			var tbl []string
+			if rerr == nil {
+				sort.Slice(rows, func(a, b int) bool { return rows[a].mac < rows[b].mac })
+				for _, rw := range rows {
+					tbl = append(tbl, fmt.Sprintf("(%s, %s)", vStr(rw.mac), vBytes(net.ParseIP(rw.ip).To4())))
+				}
+			}
+			c.Count("op:restart-other-range")
+			rangeSetups++
+			nh, err := rangeplugin.Plugin.Setup4(dbPath, gs2, ge2, lease)
+			ops = append(ops, fmt.Sprintf("RRestartAs %s %s %s", vBytes(ip4(alt[0])), vBytes(ip4(alt[1])), vList(tbl)))
+			opS = append(opS, "restart with range "+gs2+"-"+ge2)
+			if err != nil {
+				outs = append(outs, "RRestartErr")
+			} else {
+				outs = append(outs, "RRestartOk true")
+				keys := make([]string, 0, len(bound))
+				for k := range bound {
+					keys = append(keys, k)
+				}
+				sort.Strings(keys)
+				for _, k := range keys {
+					req := mkReq4([]byte(k), "", dhcpv4.MessageTypeRequest)
+					resp, _ := dhcpv4.New()
+					out, _, pan, _ := callH4(nh, req, resp)
+					if pan || out == nil {
+						continue
+					}
+					y := out.YourIPAddr.To4()
+					yv := int64(binary.BigEndian.Uint32(y))
+					if yv < alt[0] || yv > alt[1] {
+						c.vio("C02", "lease-out-of-range", fmt.Sprintf("after a restart with the range changed from %s-%s to %s-%s client %x is given %s, outside the configured range", gs, ge, gs2, ge2, k, y), rec(len(ops)-1))
+					}
+				}
+			}
+		}
+	}
 	c.AddCase(fmt.Sprintf("CR %s %s %s %s %s", vBytes(s4), vBytes(e4), vZ(int64(leaseD)), vList(ops), vList(outs)))
 	c.Eval(gs+ge+lease+strings.Join(opS, ";"), len(bound) >= 1 && len(ops) >= 2)
 	c.Count(fmt.Sprintf("range-size:%d", size))
@@ -405,6 +452,12 @@ func runRange(c *Ctx) {
 		c.Extra["rule"] = "concurrent requests through the range plugin under the race detector"
 		return
 	}
+	defer func() {
+		// the same plugin instance behind two listeners of a server started with server.Start
+		c.SetCases(asmCasesHdr, "AsmRun.mismatches")
+		c.shard = 12
+		startScenarioRange(c)
+	}()
 	r := c.R
 	type geo struct{ s, e string }
 	geos := []geo{{"10.0.0.1", "10.0.0.2"}, {"10.0.0.1", "10.0.0.3"}, {"10.1.0.0", "10.1.0.62"}, {"10.1.0.0", "10.1.0.63"},
